@@ -248,6 +248,15 @@ func (o *OCIDir) manifestPut(ctx context.Context, r ref.Ref, m manifest.Manifest
 		desc.Annotations = map[string]string{
 			aOCIRefName: r.Tag,
 		}
+	} else if _, ok := desc.Annotations[aOCIRefName]; ok {
+		// pushing by digest, do not inherit a tag from the index entry the manifest was pulled from
+		annotations := map[string]string{}
+		for k, v := range desc.Annotations {
+			if k != aOCIRefName {
+				annotations[k] = v
+			}
+		}
+		desc.Annotations = annotations
 	}
 	// create manifest CAS file
 	dir := path.Join(r.Path, "blobs", desc.Digest.Algorithm().String())
